@@ -4,6 +4,7 @@ import (
 	"fmt"
 	"go/ast"
 	"go/types"
+	"runtime/debug"
 	"sort"
 	"strings"
 
@@ -46,7 +47,7 @@ func (e *Engine) reset() {
 }
 
 // analyse verifies one function against its contract block (blk may be nil: safety/lockset sweep only).
-func (e *Engine) analyse(fn *ssa.Function, blk *Block) *FuncReport {
+func (e *Engine) analyse(fn *ssa.Function, blk *Block) (rep *FuncReport) {
 	e.reset()
 	name := e.fnName[fn]
 	e.curFn = name
@@ -67,10 +68,10 @@ func (e *Engine) analyse(fn *ssa.Function, blk *Block) *FuncReport {
 	if e.bvFiles[shortFile(e.prog.Fset.Position(fn.Pos()).Filename)] {
 		e.bv = true
 	}
-	rep := &FuncReport{Name: name}
+	rep = &FuncReport{Name: name}
 	defer func() {
 		if p := recover(); p != nil {
-			rep.Errors = append(rep.Errors, fmt.Sprintf("%s: engine panic: %v", name, p))
+			rep.Errors = append(rep.Errors, fmt.Sprintf("%s: engine panic: %v\n%s", name, p, debug.Stack()))
 			rep.Queries = e.queries
 		}
 	}()
@@ -119,6 +120,10 @@ func (e *Engine) analyse(fn *ssa.Function, blk *Block) *FuncReport {
 			e.note("axiom %s/%s (definition of a spec function): %s", ab.Name, cl.Label(), cl.Expr)
 		}
 	}
+	// object invariants (frozen, lock-independent facts) of struct-pointer parameters
+	for i, p := range fn.Params {
+		e.assumeObjInv(st, fr.Args[i], p.Type())
+	}
 	// spawn contracts: locks handed over to a goroutine body
 	if blk != nil {
 		for _, cl := range blk.All("holds") {
@@ -162,6 +167,35 @@ func (e *Engine) analyse(fn *ssa.Function, blk *Block) *FuncReport {
 	}
 	sort.Strings(rep.Used)
 	return rep
+}
+
+// assumeObjInv assumes the `objinv` clauses of the type block of *T for a value of type *T.
+func (e *Engine) assumeObjInv(st *State, v Val, t types.Type) {
+	pt, ok := t.Underlying().(*types.Pointer)
+	if !ok {
+		return
+	}
+	if _, ok := pt.Elem().Underlying().(*types.Struct); !ok {
+		return
+	}
+	tb := e.cs.Types[e.structKey(pt.Elem())]
+	if tb == nil {
+		return
+	}
+	ref, ok := v.(T)
+	if !ok {
+		return
+	}
+	for _, cl := range tb.All("objinv") {
+		x, err := parseSpec(cl.Expr)
+		if err != nil {
+			e.fail("%v", err)
+			continue
+		}
+		c := e.specCtx(st, nil)
+		c.vars[tb.Self] = SV{V: ref, T: t}
+		st.assume(Implies(Not(Eq(ref, NilOf(SRef))), c.boolTerm(x)))
+	}
 }
 
 func (e *Engine) assumeHolds(st *State, fr *Frame, cl *Clause) {
@@ -288,6 +322,7 @@ func (r *Run) applyUpdateAtExit(st *State, fr *Frame, cl *Clause, vars map[strin
 		rhs = strings.TrimSpace(rhs[:i])
 	}
 	c := e.clauseCtx(st, fr, vars)
+	c.inLoop = true
 	lx, err := parseSpec(lhs)
 	if err != nil {
 		e.fail("%v", err)
@@ -358,6 +393,9 @@ func (r *Run) scanCallEffects(f *Frame, fn *ssa.Function, ci ssa.CallInstruction
 	e := r.e
 	cc := ci.Common()
 	if cc.IsInvoke() {
+		if cc.Method.Name() == "Err" {
+			regions["ctxerr.last"] = true
+		}
 		name := fmt.Sprintf("(%s).%s", typeKey(cc.Value.Type()), cc.Method.Name())
 		name = strings.ReplaceAll(name, "github.com/joeycumines/go-bigbuff.", "")
 		if blk := e.cs.Funcs[name]; blk != nil {
